@@ -2,6 +2,7 @@
 (* Bounded instance of Exec: one hand-written genesis/descriptor table (double spends, a     *)
 (* dependent spend, a reverting script with contract writes and a retryable message, a       *)
 (* replayable reverting transaction, contract creation, relayed message + forced             *)
+(* transactions; m1 / m2 are owned by the predicate root "oP" (predicate inputs in h-exec);  *)
 (* transactions, missing / mismatching / expired inputs) and abstract gas/fee/size numbers.  *)
 (* MC_Exec.cfg explores it exhaustively, Sim_Exec.cfg samples longer behaviours and prints   *)
 (* them as walks for the harness (B2).                                                       *)
@@ -28,15 +29,15 @@ T(id, kind, ins, outs, ops, end, exp, c, f) ==
 
 Txs == <<
   T("t1", "script", <<Coin("g1", 0, "o1", 10)>>, <<Change("o1")>>, <<>>, "ret", 0 - 1, "", 0),
-  T("t2", "script", <<Coin("g2", 0, "o1", 10), Con("c1"), Msg("m2", "o1", 5, TRUE)>>,
+  T("t2", "script", <<Coin("g2", 0, "o1", 10), Con("c1"), Msg("m2", "oP", 5, TRUE)>>,
        <<Out("contract", "", 0, 1), Change("o1")>>, <<Call("c1", 1, 5, 2)>>, "rvrt", 0 - 1, "", 1),
-  T("t3", "script", <<Coin("g1", 0, "o1", 10), Msg("m1", "o1", 5, FALSE), Con("c1")>>,
+  T("t3", "script", <<Coin("g1", 0, "o1", 10), Msg("m1", "oP", 5, FALSE), Con("c1")>>,
        <<Change("o1"), Out("contract", "", 0, 2), Out("variable", "", 0, 0)>>,
        <<Call("c1", 1, 7, 3), Op("ctro", "c1", 0, 0, 0, 2, 1, "o2"), Op("smo", "", 0, 0, 0, 0, 1, "")>>, "ret", 0 - 1, "", 1),
   T("t4", "script", <<Coin("t1", 0, "o1", 10)>>, <<Out("coin", "o2", 3, 0), Change("o1")>>, <<>>, "ret", 0 - 1, "", 1),
   T("t5", "create", <<Coin("g3", 0, "o2", 10)>>, <<Out("created", "", 0, 0), Change("o2")>>, <<>>, "ret", 0 - 1, "c2", 1),
   T("t6", "script", <<Msg("m3", "o2", 4, FALSE)>>, <<Change("o2")>>, <<>>, "ret", 0 - 1, "", 0),
-  T("t7", "script", <<Msg("m2", "o1", 5, TRUE), Msg("m1", "o1", 5, FALSE)>>, <<>>, <<>>, "rvrt", 0 - 1, "", 0),
+  T("t7", "script", <<Msg("m2", "oP", 5, TRUE), Msg("m1", "oP", 5, FALSE)>>, <<>>, <<>>, "rvrt", 0 - 1, "", 0),
   T("t8", "script", <<Coin("gX", 0, "o1", 10)>>, <<Change("o1")>>, <<>>, "ret", 0 - 1, "", 0),
   T("t9", "script", <<Coin("g2", 0, "o1", 11)>>, <<Change("o1")>>, <<>>, "ret", 1, "", 0),
   T("t10", "script", <<Coin("g3", 0, "o2", 10), Con("c1")>>,
@@ -51,8 +52,8 @@ Cfg1 ==
   [coins |-> <<[id |-> CoinId("g1", 0), o |-> "o1", am |-> 10, as |-> Base],
                [id |-> CoinId("g2", 0), o |-> "o1", am |-> 10, as |-> Base],
                [id |-> CoinId("g3", 0), o |-> "o2", am |-> 10, as |-> Base]>>,
-   msgs |-> <<[id |-> "m1", o |-> "o1", am |-> 5, da |-> 0, data |-> FALSE],
-              [id |-> "m2", o |-> "o1", am |-> 5, da |-> 0, data |-> TRUE]>>,
+   msgs |-> <<[id |-> "m1", o |-> "oP", am |-> 5, da |-> 0, data |-> FALSE],
+              [id |-> "m2", o |-> "oP", am |-> 5, da |-> 0, data |-> TRUE]>>,
    contracts |-> <<"c1">>,
    relayer |-> << <<REv("msg", "m3", "o2", 4, FALSE, TRUE)>>,
                   <<REv("tx", "t6", "", 0, FALSE, TRUE), REv("tx", "bad1", "", 0, FALSE, FALSE)>> >>,
